@@ -64,7 +64,7 @@ func check(x *mon.Ctx, slot int, c *world.Case) (mon.Outcome, *ref.Verdict) {
 	if p := verdictProblem(c, out, v); p != "" {
 		x.Violation(c.Class, c.Param, p, "verify", c)
 	}
-	if x.Shadow && out.Panic == "" {
+	if x.Shadow && out.Panic == "" && (x.ShadowAll || c.TwinRef != nil) {
 		shadow(x, c, out)
 	}
 	nontrivial := true
@@ -175,6 +175,13 @@ func shadow(x *mon.Ctx, c *world.Case, fresh mon.Outcome) {
 
 // enableShadow turns the re-used-options shadow run on for a workload.
 func enableShadow(x *mon.Ctx) {
-	x.Shadow = true
+	x.Shadow, x.ShadowAll = true, true
+	x.SharedPool = make(chan any, 64)
+}
+
+
+// enableShadowForTwins turns the shadow run on only for cases that name their unbroken twin (TwinRef).
+func enableShadowForTwins(x *mon.Ctx) {
+	x.Shadow, x.ShadowAll = true, false
 	x.SharedPool = make(chan any, 64)
 }
